@@ -34,6 +34,10 @@ var (
 	traceF   *os.File
 	traceMu  sync.Mutex
 	pauseDir string
+	planKey  string
+	normDir  string
+	occ      map[string]int64
+	tearPath string
 )
 
 // Reset restarts operation numbering (in-process harnesses call it before each run).
@@ -65,6 +69,20 @@ func loadPlan() {
 	case strings.HasPrefix(p, "crash@"):
 		planKind = "crash"
 		planK, _ = strconv.ParseInt(strings.TrimPrefix(p, "crash@"), 10, 64)
+	case strings.HasPrefix(p, "crashop@"), strings.HasPrefix(p, "tearafter@"):
+		// crashop@i:<op> <path>   : SIGKILL immediately before the i-th occurrence of that operation (paths with the
+		//                           directory VOS_NORM replaced by "@"), whatever its number in this run
+		// tearafter@i:<op> <path> : let the i-th occurrence of that file-creating operation happen, then, at the next
+		//                           operation of the process, cut the file to half its size and SIGKILL (died while writing it)
+		planKind = p[:strings.IndexByte(p, '@')]
+		rest := p[strings.IndexByte(p, '@')+1:]
+		parts := strings.SplitN(rest, ":", 2)
+		planK, _ = strconv.ParseInt(parts[0], 10, 64)
+		if len(parts) == 2 {
+			planKey = parts[1]
+		}
+		normDir = os.Getenv("VOS_NORM")
+		occ = map[string]int64{}
 	case strings.HasPrefix(p, "fail@"):
 		planKind = "fail"
 		parts := strings.SplitN(strings.TrimPrefix(p, "fail@"), ":", 2)
@@ -90,6 +108,33 @@ func step(op, path string) error {
 		traceMu.Unlock()
 	}
 	switch planKind {
+	case "crashop", "tearafter":
+		traceMu.Lock()
+		if tearPath != "" {
+			if fi, err := os.Lstat(tearPath); err == nil && fi.Mode().IsRegular() && fi.Size() >= 2 {
+				os.Truncate(tearPath, fi.Size()/2)
+			}
+			syscall.Kill(os.Getpid(), syscall.SIGKILL)
+			select {}
+		}
+		key := op + " " + path
+		if normDir != "" {
+			key = strings.ReplaceAll(key, normDir, "@")
+		}
+		occ[key]++
+		hit := key == planKey && occ[key] == planK
+		if hit && planKind == "tearafter" {
+			tearPath = path
+			if i := strings.Index(path, " -> "); i >= 0 {
+				tearPath = path[i+4:]
+			}
+			hit = false
+		}
+		traceMu.Unlock()
+		if hit {
+			syscall.Kill(os.Getpid(), syscall.SIGKILL)
+			select {} // never proceed to the operation
+		}
 	case "pause":
 		if n == planK {
 			os.WriteFile(pauseDir+"/reached", []byte(fmt.Sprintf("%d %s %s\n", n, op, path)), 0o644)
